@@ -668,6 +668,24 @@ func registerReflectModel(e *Engine) {
 		st.unsupported("reflect.Value.Pointer on %s", rkNames[v.Kind])
 		return nil
 	})
+	vm("MethodByName", func(st *State, v *RVal, a []Value) Value {
+		name := constStr(st, a[0], "method name")
+		gt := v.Typ.GoType
+		if gt == nil {
+			st.unsupported("MethodByName on a value without a Go type")
+		}
+		sel := st.E.P.Prog.MethodSets.MethodSet(gt).Lookup(nil, name)
+		if sel == nil {
+			return &RVal{Kind: rkInvalid}
+		}
+		fn := st.E.P.Prog.MethodValue(sel)
+		if fn == nil {
+			st.unsupported("MethodByName: abstract method %s", name)
+		}
+		sig := sel.Type().(*types.Signature)
+		rt := st.E.rtypeOfGo(types.NewSignatureType(nil, nil, nil, sig.Params(), sig.Results(), sig.Variadic()))
+		return &RVal{Kind: rt.Kind, Typ: rt, Val: &FuncV{Fn: fn, Recv: st.rpayload(v)}}
+	})
 	vm("Call", func(st *State, v *RVal, a []Value) Value {
 		fv, ok := st.rpayload(v).(*FuncV)
 		if !ok {
@@ -692,6 +710,35 @@ func registerReflectModel(e *Engine) {
 		var plain []Value
 		for _, x := range args {
 			plain = append(plain, st.rpayload(x.(*RVal)))
+		}
+		if sig := fv.Fn.Signature; sig.Variadic() {
+			// pack the trailing arguments into the variadic slice
+			nfix := sig.Params().Len() - 1
+			if len(args) < nfix {
+				st.rpanic("reflect: Call with too few input arguments")
+			}
+			et := sig.Params().At(nfix).Type().(*types.Slice).Elem()
+			var rest []Value
+			for _, x := range args[nfix:] {
+				rv := x.(*RVal)
+				pv := st.rpayload(rv)
+				if types.IsInterface(et) {
+					if _, isI := pv.(*IfaceV); !isI {
+						gt := rv.Typ.GoType
+						if gt == nil {
+							gt = kindGoType(rv.Kind)
+						}
+						pv = &IfaceV{T: gt, V: pv}
+					}
+				}
+				rest = append(rest, pv)
+			}
+			var sl Value = &SliceV{}
+			if len(rest) > 0 {
+				o := st.newObject(nil, "variadic", &ArrayV{E: rest})
+				sl = &SliceV{Obj: o, Len: len(rest), Cap: len(rest)}
+			}
+			plain = append(plain[:nfix:nfix], sl)
 		}
 		r = st.Call(fv, plain, nil)
 		var outs []Value
